@@ -3,7 +3,8 @@
 //! full state digest, for lock-step replay through the Lean model `MqttVerif.Conn`.
 use crate::rng::{hex, unhex};
 use mqtt_protocol_core::mqtt;
-use mqtt_protocol_core::mqtt::connection::role::{Any, Client, RoleType, Server};
+use mqtt_protocol_core::mqtt::connection::role::{Any, Client, Server};
+use crate::csend::RoleX;
 use mqtt_protocol_core::mqtt::connection::{GenericEvent, PacketBuildResult, PacketBuilder, TimerKind};
 use mqtt_protocol_core::mqtt::packet::{v3_1_1, v5_0, GenericPacket, GenericStorePacket, IsPacketId, Property, Qos};
 use mqtt_protocol_core::mqtt::prelude::GenericPacketTrait;
@@ -545,7 +546,7 @@ pub fn show_events<T: IsPacketId>(evs: &[GenericEvent<T>]) -> String {
 // ---------------------------------------------------------------------------------------
 // one connection under test
 
-pub struct Sess<R: RoleType, T: IsPacketId> {
+pub struct Sess<R: RoleX, T: IsPacketId> {
     pub c: GenericConnection<R, T>,
     pub pw: usize,
     pub out_lines: Vec<String>,
@@ -571,7 +572,7 @@ pub fn store_descr<T: IsPacketId>(sp: &GenericStorePacket<T>) -> String {
     format!("{}:{}", id_to_u64(sp.packet_id()), descr(&gp))
 }
 
-impl<R: RoleType, T: IsPacketId> Sess<R, T> {
+impl<R: RoleX, T: IsPacketId> Sess<R, T> {
     pub fn new(ver: u8) -> Self {
         let v = match ver {
             4 => Version::V3_1_1,
@@ -664,15 +665,33 @@ impl<R: RoleType, T: IsPacketId> Sess<R, T> {
         }
     }
 
-    pub fn send_bytes(&mut self, ver: u8, bytes: &[u8]) {
+    /// `checked`: through `checked_send` when the trait bounds admit the packet's type for this
+    /// role (the printed op then ends in ` c`), otherwise through `send`
+    pub fn send_bytes(&mut self, ver: u8, bytes: &[u8], checked: bool) {
         if self.dead {
             return;
         }
         let Some((fh, body)) = split_frame(bytes) else { return };
         let Ok(pkt) = parse_frame::<T>(ver, fh, &body) else { return };
-        let op = format!("send {} {}", ver, hex(bytes));
+        let mut op = format!("send {} {}", ver, hex(bytes));
         let oracle = descr(&pkt);
-        let r = catch_unwind(AssertUnwindSafe(|| self.c.send(pkt)));
+        let mut via_checked = false;
+        let r = catch_unwind(AssertUnwindSafe(|| {
+            if checked {
+                match R::csend(&mut self.c, pkt) {
+                    Ok(evs) => {
+                        via_checked = true;
+                        evs
+                    }
+                    Err(pkt) => self.c.send(pkt),
+                }
+            } else {
+                self.c.send(pkt)
+            }
+        }));
+        if via_checked || (checked && r.is_err()) {
+            op.push_str(" c");
+        }
         match r {
             Ok(evs) => {
                 self.note_events(&evs);
@@ -930,7 +949,7 @@ impl<R: RoleType, T: IsPacketId> Sess<R, T> {
             return;
         }
         match w[0] {
-            "send" => self.send_bytes(w[1].parse().unwrap(), &unhex(w[2])),
+            "send" => self.send_bytes(w[1].parse().unwrap(), &unhex(w[2]), w.get(3) == Some(&"c")),
             "recv" => self.recv_chunk(&unhex(w[1])),
             "timer" => self.timer(match w[1] {
                 "S" => 0,
@@ -949,7 +968,7 @@ impl<R: RoleType, T: IsPacketId> Sess<R, T> {
 // running op lists for a configuration chosen at run time
 
 pub fn run_ops(role: &str, pw: usize, ver: u8, legal: bool, name: &str, ops: &[String], out: &mut dyn Write) -> bool {
-    fn go<R: RoleType, T: IsPacketId>(ver: u8, ops: &[String]) -> (Vec<String>, bool) {
+    fn go<R: RoleX, T: IsPacketId>(ver: u8, ops: &[String]) -> (Vec<String>, bool) {
         let mut s = Sess::<R, T>::new(ver);
         for op in ops {
             s.apply(op);
